@@ -25,11 +25,13 @@ BOUNDS = {
     "quick": "2 messages per run, all ordered pairs of 6 send APIs, payload 0..3 free octets; fragmentSize/autoFragmentSize a free integer 1..n+1; chop sizes 1..3; every single cut of the wire stream for short streams; boundary lengths {125,126,127,128,129} client->server and {65535,65536} server->client with 2 free octets + fill; hand-over after the HTTP header at every cut position of the last 6 header octets",
     "thorough": "3 messages per run over all API triples, payload 0..6 free octets, every 2-cut split for streams <= 24 octets, boundary lengths both directions, chop sizes 1..5",
 }
-EXPECT_COVERS = ["deflate-mix", "aio", "api:message", "api:message-frag", "api:autofrag", "api:frame-frag", "api:streaming", "api:prepared", "sync-queue", "chopped",
+EXPECT_COVERS = ["ctl-between-fragments", "deflate-mix", "aio", "api:message", "api:message-frag", "api:autofrag", "api:frame-frag", "api:streaming", "api:prepared", "sync-queue", "chopped",
                  "handover:S", "handover:C", "len:126", "len:65536"]
 BUDGET = {"quick": dict(wall_s=300, max_paths=20000, diff_samples=3), "thorough": dict(wall_s=2400, max_paths=300000)}
 
 APIS = ["message", "message-frag", "autofrag", "frame-frag", "streaming", "prepared"]
+# data message with control frames on the wire between its fragments (RFC 6455 5.4 allows it; an automatic ping does it to any streamed message)
+CTL_APIS = ["frame-frag+ctl", "streaming+ctl"]
 
 
 def _send(sx, ep, api, pl, idx, sync, chop):
@@ -69,17 +71,32 @@ def _send(sx, ep, api, pl, idx, sync, chop):
         p.endMessage()
     elif api == "prepared":
         p.sendPreparedMessage(ep.factory.prepareMessage(pl, isBinary=True))
+    elif api == "frame-frag+ctl":
+        h = n // 2
+        p.sendFrame(opcode=2, payload=pl[:h], fin=False, sync=sync)
+        p.sendPing(b"k")
+        p.sendFrame(opcode=0, payload=pl[h:h + 1], fin=False)
+        p.sendPong(b"u")
+        p.sendFrame(opcode=0, payload=pl[h + 1:], fin=True)
+    elif api == "streaming+ctl":
+        p.beginMessage(isBinary=True)
+        h = n // 2
+        p.sendMessageFrame(pl[:h])
+        p.sendPong(b"u")
+        p.sendMessageFrame(pl[h:])
+        p.sendPing(b"k")
+        p.endMessage()
     return True
 
 
-def _check_wire(sx, frames, sender_is_server, label_info):
+def _check_wire(sx, frames, sender_is_server, label_info, ctl=False):
     events, ok = wslib.frames_to_messages(frames)
     sx.check(ok, "wire:well-formed-frame-sequence", info=label_info)
     for f in frames:
         sx.check(f.rsv == 0, "wire:rsv-zero", info=label_info)
         sx.check(f.minimal, "wire:minimal-length-form", info=label_info)
         sx.check(f.masked == (not sender_is_server), "wire:mask-bit-per-role", info=label_info)
-        sx.check(f.opcode in (0, 1, 2), "wire:only-data-frames", info=label_info)
+        sx.check(f.opcode in ((0, 1, 2, 9, 10) if ctl else (0, 1, 2)), "wire:only-data-frames", info=label_info)
     return [e for e in events if e[0] == "msg"]
 
 
@@ -110,7 +127,8 @@ def roundtrip(sx, sender_server, apis, n, syncs, chop, cutmode):
     info = dict(apis=apis, n=n, syncs=syncs, chop=chop, sender="S" if sender_server else "C")
     frames, rest = wslib.parse_frames(sx, wire)
     sx.check(len(rest) == 0, "wire:whole-frames-only", info=info)
-    wmsgs = _check_wire(sx, frames, sender_server, info)
+    ctl = any(a in CTL_APIS for a in apis)
+    wmsgs = _check_wire(sx, frames, sender_server, info, ctl)
     sx.check(len(wmsgs) == len(payloads), "wire:one-message-per-send", info=info)
     for (k, got, isbin), want, wb in zip(wmsgs, payloads, kinds):
         sx.check(got == want, "wire:payload-in-order", info=info)
@@ -136,6 +154,10 @@ def roundtrip(sx, sender_server, apis, n, syncs, chop, cutmode):
         sx.check(g[3] == wb, "rx:same-type", info=info)
     sx.check(rcv.t.closed is None and rcv.p.state == rcv.p.STATE_OPEN, "rx:connection-stays-open", info=info)
     sx.check(len(trace.of(snd.who, "msg")) == 0, "nothing-delivered-to-sender", info=info)
+    if ctl:
+        nctl = sum(1 for a in apis if a in CTL_APIS)
+        sx.check(len(trace.of(rcv.who, "ping")) == nctl and len(trace.of(rcv.who, "pong")) == nctl, "rx:control-frames-between-fragments-delivered-once", info=info)
+        sx.cover("ctl-between-fragments")
     return [len(frames), len(got)]
 
 
@@ -159,7 +181,8 @@ def aio_roundtrip(sx, sender_server, apis, n, queued):
     wire = wslib.concat(snd.t.take())
     frames, rest = wslib.parse_frames(sx, wire)
     sx.check(len(rest) == 0, "wire:whole-frames-only", info=info)
-    wmsgs = _check_wire(sx, frames, sender_server, info)
+    ctl = any(a in CTL_APIS for a in apis)
+    wmsgs = _check_wire(sx, frames, sender_server, info, ctl)
     sx.check(len(wmsgs) == len(payloads), "wire:one-message-per-send", info=info)
     L = len(wire)
     c1 = sx.choice("cut1", L + 1)
@@ -280,6 +303,12 @@ def units(tier):
             for apis in (["frame-frag", "message"], ["message", "frame-frag"], ["frame-frag", "frame-frag"], ["frame-frag", "prepared"]):
                 U.append(("chop/%s/%s/c%d" % ("S" if sender_server else "C", "+".join(apis), chop), "roundtrip",
                           dict(sender_server=sender_server, apis=apis, n=3, syncs=[False, False], chop=chop, cutmode="chunks")))
+        # control frames on the wire between the fragments of a message
+        for apis in (["frame-frag+ctl", "message"], ["streaming+ctl", "message-frag"], ["message", "streaming+ctl"], ["streaming+ctl", "frame-frag+ctl"]):
+            for n in ((3,) if q else (2, 3, 5)):
+                for cm in ("symcut", "bytewise"):
+                    U.append(("ctl/%s/%s/n%d/%s" % ("S" if sender_server else "C", "+".join(apis), n, cm), "roundtrip",
+                              dict(sender_server=sender_server, apis=apis, n=n, syncs=[False, False], chop=None, cutmode=cm), dict(weight=3)))
         # three messages: sync, sync, plain (queue ordering)
         for apis in (["message", "message", "message"], ["message", "prepared", "streaming"], ["streaming", "message", "frame-frag"]):
             for syncs in ([True, True, False], [True, False, False], [False, True, False]):
